@@ -449,7 +449,27 @@ func (s *Server) shutdownUpstreamServer(ctx context.Context) {
 	if err := s.upstreamServer.Shutdown(ctx); err != nil {
 		s.logger.Error("failed to shutdown upstream server", zap.Error(err))
 	}
+	// The upstream connections are closed asynchronously, so wait for their
+	// upstreams to be removed. Otherwise the node may close the proxy and
+	// leave the cluster while it is still advertising those upstreams.
+	s.waitForUpstreamsRemoved(ctx)
 	s.logger.Info("shutdown upstream server")
+}
+
+// waitForUpstreamsRemoved blocks until the local node has no registered
+// upstreams or the context is cancelled.
+func (s *Server) waitForUpstreamsRemoved(ctx context.Context) {
+	ticker := time.NewTicker(time.Millisecond * 5)
+	defer ticker.Stop()
+
+	for len(s.clusterState.LocalNode().Endpoints) > 0 {
+		select {
+		case <-ctx.Done():
+			s.logger.Warn("timed out waiting for upstreams to be removed")
+			return
+		case <-ticker.C:
+		}
+	}
 }
 
 func (s *Server) shutdownAdminServer(ctx context.Context) {
